@@ -17,7 +17,8 @@ open OG.C02
 
 /-- **drop_exact (partial)**: for every universe of series keys, every number of WAL partitions
 and every history of write / flush / compaction / merge / drop series / drop measurement /
-purge / index flush interval / clean reopen / crash that is `Safe` — no restart while the WAL
+purge / index flush interval / merges of index parts (atomic or with other operations between
+their two halves) / clean reopen / crash that is `Safe` — no restart while the WAL
 holds rows of a series dropped since they were written, no crash while an acknowledged drop has
 not reached the deleted-tsid table on disk — every read shape of the model answers what the
 specification answers: the last-write-wins replay of the acknowledged rows minus exactly the
@@ -25,7 +26,7 @@ series named by the drops. -/
 theorem drop_exact_partial (U : Univ) (n : Nat) (hn : 0 < n) (ops : List Op)
     (hs : Safe U (St.init n) ops) :
     ReadsAgree U (run U (St.init n) ops) (specRun U Sp.init ops) :=
-  reads_agree U (run_R U ops _ _ (R_init n hn) hs)
+  reads_agree U (run_R U ops _ _ (R_init n hn) partsOK_init hs)
 
 /-- the full statement: the same without `Safe`. -/
 def drop_exact_full : Prop :=
@@ -158,6 +159,10 @@ theorem agree_step (U : Univ) (kid : Nat) {a b : Sp} (h : AgreeOn kid a b) (op :
   | tick => exact h
   | reopen => exact h
   | crash => exact h
+  | imerge _ => exact h
+  | mbegin _ => exact h
+  | mend => exact h
+  | regroup _ => exact h
 
 theorem agree_run (U : Univ) (kid : Nat) (ops : List Op) : ∀ {a b : Sp}, AgreeOn kid a b →
     AgreeOn kid (specRun U a ops) (specRun U b ops) := by
@@ -194,7 +199,7 @@ theorem rewrite_after_drop_fresh (U : Univ) (n : Nat) (hn : 0 < n) (pre post : L
       ∀ e ∈ st.idx.ents, e.kid = kid → st.idx.visible e = true →
         ∀ t f, lookup (e.id, t, f) st.lay.cells = lookup (kid, t, f) fresh.cells := by
   intro st fresh
-  have hR := run_R U _ _ _ (R_init n hn) hs
+  have hR := run_R U _ _ _ (R_init n hn) partsOK_init hs
   have hA := spec_fresh_after_dropSeries U pre post m p kid hk
   constructor
   · rw [← hA.known, hR.core.known]
@@ -229,7 +234,7 @@ theorem drop_measurement_permanent (U : Univ) (n : Nat) (hn : 0 < n) (pre post :
       lookup (e.id, t, f) st.lay.cells =
         lookup (kid, t, f) (specRun U (Sp.mk [] (specRun U Sp.init pre).known) post).cells := by
   intro st e he hkid hv t f
-  have hR := run_R U _ _ _ (R_init n hn) hs
+  have hR := run_R U _ _ _ (R_init n hn) partsOK_init hs
   rw [hR.core.data e he hv t f, hkid]
   exact spec_fresh_after_dropMst U pre post m kid hk t f
 
